@@ -75,7 +75,7 @@ def run_case(col, r, idx):
                     col.violation(f'{errs[0][0]}:{op.kind}', f'after {op.desc}: {errs[0][1]}', {'text': text, 'lf': lf, 'acl': acl, 'log': log})
                     return
                 continue
-            op = (mg.claim_op(f) if layout and r.random() < 0.6 else mg.next_op(f)) if r.random() < (0.7 if layout else 0.3) else g.next_op(f)
+            op = (mg.claim_op(f) if layout and r.random() < 0.6 else mg.next_op(f, kinds=('token', 'spacing', 'claim', 'arith'))) if r.random() < (0.7 if layout else 0.3) else g.next_op(f)
             if op is None:
                 continue
             pre_ids = walker.ids_texts(f.token_store)
